@@ -319,7 +319,7 @@ def add_shared_alias(rng, prog):
                     first = h
                 elif not any(getattr(prog["types"][a["ti"]], "param", None) for a in first["args"] + h["args"]):
                     # the same arguments: one body is a message of both parts
-                    h["args"] = [dict(a) for a in first["args"]]
+                    h["args"] = [{k: v for k, v in a.items() if k != "attrs"} for a in first["args"]]
             return name
     return None
 
